@@ -4,6 +4,7 @@ import (
 	"fmt"
 	"os"
 	"path/filepath"
+	"strconv"
 	"strings"
 	"sync"
 
@@ -31,8 +32,33 @@ var (
 // reach them first.
 var c14Uncompilable = []string{"/(?!x)a/", "/a{2000}b{2000}/", "/\\p{Nope}/", "/[/", "/ads(?=x)/$important", "@@/(?<n>a)\\k<n>/", "/x(?!y)/$script"}
 
+// c14HostsFile is a list in the style of a "compressed" hosts file: one
+// address followed by up to sixteen names per line, in no particular order.
+func c14HostsFile(c *core.Ctx) (lines []string) {
+	n := 40 + c.Rng.Intn(200)
+	k := 0
+	for i := 0; i < n; i++ {
+		l := c18IPs[c.Rng.Intn(len(c18IPs))]
+		for j, m := 0, []int{1, 2, 8, 9, 10, 12, 16}[c.Rng.Intn(7)]; j < m; j++ {
+			l += " " + []string{"zz", "m", "a", "q"}[c.Rng.Intn(4)] + strconv.Itoa(k*7919%1000) + ".hosts.example"
+			k++
+		}
+		lines = append(lines, l)
+	}
+
+	return lines
+}
+
+// c14HostsRound tells that the list of the current case is a hosts file.
+var c14HostsRound bool
+
 func c14List(c *core.Ctx) []string {
 	lines := c14ListBase(c)
+	c14HostsRound = c.Rng.Intn(6) == 0
+	if c14HostsRound {
+		lines = c14HostsFile(c)
+		c.Event("rounds_over_a_compressed_hosts_file", 1)
+	}
 	for i, n := 0, 1+c.Rng.Intn(4); i < n; i++ {
 		j := c.Rng.Intn(len(lines) + 1)
 		lines = append(lines[:j], append([]string{c14Uncompilable[c.Rng.Intn(len(c14Uncompilable))]}, lines[j:]...)...)
@@ -62,7 +88,14 @@ func c14ListBase(c *core.Ctx) []string {
 	for i := 0; i < len(lines)/10; i++ {
 		switch c.Rng.Intn(3) {
 		case 0:
-			lines = append(lines, c18IPs[c.Rng.Intn(len(c18IPs))]+" "+gen.Hosts[c.Rng.Intn(len(gen.Hosts))])
+			l := c18IPs[c.Rng.Intn(len(c18IPs))] + " " + gen.Hosts[c.Rng.Intn(len(gen.Hosts))]
+			if c.Rng.Intn(3) == 0 {
+				// A line of a "compressed" hosts file: many names after one address.
+				for k, n := 0, 8+c.Rng.Intn(8); k < n; k++ {
+					l += " " + gen.Hosts[c.Rng.Intn(len(gen.Hosts))]
+				}
+			}
+			lines = append(lines, l)
 		case 1:
 			lines = append(lines, c15Rule(c))
 		default:
@@ -196,6 +229,9 @@ func c14Run(c *core.Ctx, idx int) {
 	}
 	content := util.Lines(lines)
 	kind := []string{"dns", "engine", "network", "network", "cosmetic", "mixed"}[c.Rng.Intn(6)]
+	if c14HostsRound {
+		kind = "dns"
+	}
 	file := ""
 	if c.Rng.Intn(2) == 0 {
 		dir, err := os.MkdirTemp(filepath.Join(c.Env.VerifDir, ".work"), "c14f.")
@@ -240,6 +276,11 @@ func c14Run(c *core.Ctx, idx int) {
 		switch gk {
 		case "dns":
 			q = gen.RandomReq(c.Rng, 1)
+			if l := lines[c.Rng.Intn(len(lines))]; strings.HasSuffix(l, ".hosts.example") {
+				// A name of a hosts line of the list.
+				f := strings.Fields(l)
+				q.Host = f[1+c.Rng.Intn(len(f)-1)]
+			}
 		case "cosmetic":
 			q = &gen.Req{HostnameReq: true, Host: c15Hostnames[c.Rng.Intn(len(c15Hostnames))]}
 		default:
@@ -419,6 +460,7 @@ func init() {
 		Workers: 8,
 		Rule: "harness built with -race; per round a fresh cold storage (String- or File-backed) and engine (DNS, full Engine, NetworkEngine.MatchAll, cosmetic, or web+cosmetic queries mixed on one Engine) over a generated list of 100..400 (thorough 2000) lines or an easylist slice (in a third of the rounds two lists with identical rule offsets: the list and a twin with other host names), a request multiset of 50..250 (thorough 500) drawn from 5..30 distinct requests (few keys, many threads; URLs repeating indexed windows) partitioned over 2/4/8/16/32 goroutines released by a barrier; " +
 			"schedule perturbation at the hook points (cache miss/insert, between Seek and read, before regexp.Compile, pool get/put) in one of four modes: none, Gosched with probability p, 1..50 us sleep, rendezvous (the first goroutine at a miss/seek/compile point of key K is held until a second one reaches the same point and key); " +
+			"one round in six runs over a compressed hosts file (up to 16 names per line) queried for its names; " +
 			"monitors: race detector reports (log parsed after every round), every concurrent answer == the sequential answer of a separate engine over the same bytes (sorted text multisets), no panic; non-trivial = round with cache misses; distinct by the observed global order of miss/insert events (the interleaving signature)",
 		Assumptions: []string{
 			"schedules are those the Go scheduler produces under the perturbation; the evidence reports how many overlapping miss windows and rendezvous were actually observed",
